@@ -16,6 +16,7 @@ set_option maxRecDepth 100000
 structure RowOk (strict : Bool) (L : Nat) (r : XRow) : Prop where
   name : Run r.1
   short : strict = true → r.1.length ≤ 10
+  ascii : allAscii r.1 = true      -- the strict name field is ten RUNES (`Read(10)`): ten bytes for an ASCII name
   res : ∀ b ∈ r.2, Res b
   len : r.2.length = L
 
@@ -82,7 +83,7 @@ theorem first_rows : ∀ (rs : List XRow), (∀ r ∈ rs, RowOk strict L r) → 
       simp
     | true =>
       rw [rowLine_first_strict,
-        first_strict block hb r.1 (hr.short rfl) (run_name r.1 hr.name) _ hne hres _ .eol f rs.length acc, ih]
+        first_strict block hb r.1 (hr.short rfl) (run_name r.1 hr.name) hr.ascii _ hne hres _ .eol f rs.length acc, ih]
       simp
 
 omit hL in
